@@ -414,7 +414,7 @@ func runC18(c *Ctx) {
 		depth = 5
 	}
 	cfgs := append([]Cfg{}, cfgQuick...)
-	cfgs = append(cfgs, Cfg{Compress: true, Lower: true}, Cfg{Ext: ".obj", Async: 1, Compress: true}, Cfg{Ext: "-"}, Cfg{Ext: "-", Compress: true, Cache: true}, Cfg{Ext: ".json.gz", Compress: true}, Cfg{Ext: ".gz"}, Cfg{Ext: ".gz", Compress: true, Async: 1})
+	cfgs = append(cfgs, Cfg{Compress: true, Lower: true}, Cfg{Ext: ".v1.obj", Async: 1, Compress: true}, Cfg{Ext: "-"}, Cfg{Ext: "-", Compress: true, Cache: true}, Cfg{Ext: ".json.gz", Compress: true}, Cfg{Ext: ".gz"}, Cfg{Ext: ".gz", Compress: true, Async: 1})
 	for _, cfg := range cfgs {
 		cfg := cfg
 		e := &Explorer{C: c, Cfg: cfg, Prop: "C18", Alphabet: alphabetMixed(cfg), Depth: depth, MaxLive: 3}
